@@ -4,8 +4,10 @@ import (
 	"context"
 	"fmt"
 	"net"
+	"sort"
 	"strconv"
 	"sync"
+	"sync/atomic"
 	"time"
 
 	"github.com/bbockelm/cedar/client"
@@ -49,16 +51,16 @@ type est07 struct {
 
 // World07 is the real counterpart of the model state of one C07 behaviour.
 type World07 struct {
-	v     Variant07
-	srv   map[string]*Server // by concrete model address name
-	lns   []net.Listener
-	wg    sync.WaitGroup
-	cc    *security.SessionCache
-	sess  map[int]*est07
-	St    Stats07
-	tcp   bool
-	tcpMu sync.Mutex
-	tcpCh chan *ConnLog
+	v        Variant07
+	srv      map[string]*Server // by concrete model address name
+	lns      []net.Listener
+	wg       sync.WaitGroup
+	cc       *security.SessionCache
+	sess     map[int]*est07
+	St       Stats07
+	tcp      bool
+	tcpCh    chan *ConnLog
+	accepted int64 // connections accepted so far (order of acceptance)
 }
 
 func swap(x, a, b string, on bool) string {
@@ -105,9 +107,12 @@ func NewWorld07(v Variant07) (*World07, error) {
 						return
 					}
 					w.wg.Add(1)
+					seq := atomic.AddInt64(&w.accepted, 1)
 					go func() {
 						defer w.wg.Done()
-						w.tcpCh <- s.Serve(&wire.C06RecConn{Conn: conn}, nil)
+						l := s.Serve(&wire.C06RecConn{Conn: conn}, nil)
+						l.Seq = seq
+						w.tcpCh <- l
 					}()
 				}
 			}()
@@ -146,6 +151,10 @@ func (w *World07) handshake(api, tag, addr, cmd string) hsObs {
 	w.St.Handshakes++
 	if api == "connect" && w.tcp {
 		w.St.ConnectCalls++
+		for len(w.tcpCh) > 0 { // nothing of an earlier call may be left over
+			<-w.tcpCh
+		}
+		_, hadRoute := w.cc.LookupByCommand(TagStr[tag], s.Addr, strconv.Itoa(CmdInt[cmd]))
 		ctx, cancel := context.WithTimeout(context.Background(), 20*time.Second)
 		defer cancel()
 		cl, err := client.ConnectAndAuthenticateWithConfig(ctx, &client.ClientConfig{Address: s.Addr, Security: cfg, Timeout: 10 * time.Second})
@@ -157,21 +166,26 @@ func (w *World07) handshake(api, tag, addr, cmd string) hsObs {
 			}
 			_ = cl.Close()
 		}
-		// collect the server-side logs of the connections this call made
-		deadline := time.After(10 * time.Second)
+		// Collect the server-side logs of the connections this call made. Their
+		// number follows from what the client found in its cache before the call
+		// (the same lookup ClientHandshake does) and from the result: a cached
+		// session means a resumption attempt first, and unless the final result
+		// is a resumed session that attempt failed and was retried once.
 		want := 1
+		if hadRoute && !(err == nil && o.wasResumed) {
+			want = 2
+		}
+		deadline := time.After(20 * time.Second)
 		for len(o.logs) < want {
 			select {
 			case l := <-w.tcpCh:
 				o.logs = append(o.logs, l)
-				// a failed resumption is retried once on a new connection
-				if len(o.logs) == 1 && l.Req != nil && l.Req.UseSession && (l.Broken || l.Err != nil) {
-					want = 2
-				}
 			case <-deadline:
-				return o
+				want = 0
 			}
 		}
+		// the server goroutines finish in any order: restore the order of acceptance
+		sort.Slice(o.logs, func(i, j int) bool { return o.logs[i].Seq < o.logs[j].Seq })
 		w.St.Connections += int64(len(o.logs))
 		return o
 	}
